@@ -41,6 +41,18 @@ let () =
         if obs = "PANIC" then (if s = K.Z0 then "ok" else "FAIL:panic")
         else if K.is_partition_b s e iv (z_of_int last) (parse_periods obs) then "ok" else "FAIL:is_partition_b" in
       (model, spec)));
+  (* input: "<s> <e> <iv> <last1,last2,..>"  observed: the results of the calls in that order, joined by " / ":
+     each call is judged on its own (the model is a function: no call depends on an earlier one) *)
+  register "C11.seq" (fun inp obs ->
+    Scanf.sscanf inp "%s %s %s %s" (fun s e iv lasts ->
+      let part = Hashtbl.find ops "C11.part" in
+      let ls = split_on ',' lasts in
+      let os = Str.split_delim (Str.regexp_string " / ") obs in
+      let os = if List.length os = List.length ls then os else List.map (fun _ -> "MISSING") ls in
+      let rs = List.map2 (fun l o -> part (Printf.sprintf "%s %s %s %s" s e iv l) o) ls os in
+      let model = String.concat " / " (List.map fst rs) in
+      let bad = List.filter (fun (_, v) -> v <> "ok") rs in
+      (model, match bad with [] -> "ok" | (_, v) :: _ -> v ^ " (call " ^ string_of_int (List.length rs - List.length bad + 1) ^ "+ of the history)")));
   (* input: "<s> <e> <iv> <last> <d1,d2,...>" observed: "r1,r2,..." r = date | "-" *)
   register "C11.align" (fun inp obs ->
     Scanf.sscanf inp "%s %s %s %d %s" (fun s e iv last ds ->
